@@ -200,6 +200,7 @@ func (ex *Exec) callFunc(f *ssa.Function, args, freeVars []Term, cc *ssa.CallCom
 					v.typ = types.Typ[types.Int]
 				}
 				ex.witness[w.Name] = v
+				ex.witness[w.Name+"$captured"] = SV{reach, types.Typ[types.Bool]}
 			}
 		}
 	}
@@ -434,6 +435,7 @@ func (ex *Exec) contractCall(f *ssa.Function, c *Contract, args []Term, h *Heap,
 	for _, w := range c.Witnesses {
 		wt := ex.P.witnessType(f, w)
 		vars[w.Name] = SV{ex.havocVal("wit_"+w.Name, wt, reach), wt}
+		vars[w.Name+"$captured"] = SV{ex.havocVal("wit_"+w.Name+"_captured", types.Typ[types.Bool], reach), types.Typ[types.Bool]}
 	}
 	sc2 := &SpecCtx{ex: cx, pkg: f.Pkg, vars: vars, heap: h, old: pre}
 	for _, e := range c.Ensures {
